@@ -6,6 +6,7 @@ Outcomes are tuples (kind, state, value): expression kinds 'ok' | 'raise'; state
 'next' | 'return' | 'raise' | 'break' | 'continue'.
 """
 import ast
+import os
 import z3
 from .values import *  # noqa
 from .state import *  # noqa
@@ -81,6 +82,11 @@ class Engine:
         self.paths = 0
         self.feas_timeout_ms = 3000
         self.full_feas_timeout_ms = 400
+        # budgets of the feasibility queries are z3 RESOURCE units (deterministic: the same query consumes the same amount whatever the
+        # machine load, ~3 M units per second on this image), so that the set of explored paths - and with it the obligation names the
+        # baseline is keyed by - does not depend on how busy the 16 cores are; the wall-clock caps are only a backstop (10x)
+        self.feas_rlimit = int(os.environ.get("PYVC_FEAS_RLIMIT", "6000000"))
+        self.full_feas_rlimit = int(os.environ.get("PYVC_FULL_FEAS_RLIMIT", "1500000"))
         self.mod = None
         self.cur_contract = None
         self.loop_ordinal = {}
@@ -100,7 +106,8 @@ class Engine:
         self.stats["feas_checks"] += 1
         qf = [c for c in st.pc if not _has_quantifier(c)]
         s = z3.Solver()
-        s.set("timeout", 2000)
+        s.set("timeout", 20000)
+        s.set("rlimit", self.feas_rlimit)
         for c in qf:
             s.add(c)
         for c in lit_axioms():
@@ -113,7 +120,8 @@ class Engine:
             self._feas_cache[key] = True
             return True
         s = z3.Solver()
-        s.set("timeout", self.full_feas_timeout_ms)
+        s.set("timeout", self.full_feas_timeout_ms * 10)
+        s.set("rlimit", self.full_feas_rlimit)
         for c in st.pc:
             s.add(c)
         for c in lit_axioms():
